@@ -18,7 +18,9 @@ from typing import Dict, Optional, Set
 from .model import norm, walk_scope
 
 SANITISER_CALLS = {"id", "len", "repr", "str", "bool", "type", "isinstance", "hasattr", "callable", "int", "format", "get_code", "sorted_names"}
-CODE_ATTRS = {"f_code", "__code__", "gi_code", "ag_code", "cr_code", "co_name", "co_filename", "co_code", "co_consts", "__name__", "__qualname__", "__module__", "f_lineno", "f_lasti"}
+CODE_ATTRS = {"f_code", "__code__", "gi_code", "ag_code", "cr_code", "co_name", "co_filename", "co_code", "co_consts", "__name__", "__qualname__", "__module__", "f_lineno", "f_lasti",
+              # scalar fields of the package's own result records (bool / int / str): not objects of the observed program
+              "is_async", "is_exiting", "varname", "start_line", "hide", "hide_line", "lineno", "funcname", "filename", "modname", "cleanup_offset", "handler", "level"}
 # result objects are made to hold references to the target (obj, pyframe, inner stacks): an instance of
 # one of them in persistent state retains whatever an extraction later writes into it
 RESULT_TYPES = {"Context", "Frame", "Stack", "FrameDetails", "FrameDetails.FinallyBlock"}
